@@ -531,6 +531,13 @@ impl Property for C02 {
         out
     }
 
+    fn crosscheck(sc: &Sc, ctx: &mut Ctx, bins: &std::path::Path) -> crate::crosscheck::Xc {
+        if !sc.sorted {
+            return crate::crosscheck::Xc::NotComparable;
+        }
+        crate::crosscheck::find(&sc.find, ctx, bins, "\u{1}no-command")
+    }
+
     fn rule() -> &'static str {
         "one evaluation = one seeded scenario: a tree (directories, files, fifos, symlinks to files / directories inside and outside / ancestors / themselves / nothing / other links) built for real on tmpfs, 1-4 starting points (existing, missing, files, links, duplicates; spelled t, ./t, t/), follow mode -P/-H/-L/-follow, every (mindepth, maxdepth) in 0..5 incl. mindepth > maxdepth, -depth and -sorted on/off, `-print0` into a simulated stdout (short writes, EINTR); fault batches: directories made unreadable (000/0300) or unsearchable (0600) under a dropped uid, and a scripted racing process that removes / replaces / renames / creates entries right after the k-th record is written; oracle: independent lstat/stat/readdir walk run on the same tree before find starts; distinct = distinct abstract trace (write results, mutations, exit status); non-trivial = a fault fired or a shape probe hit (cycle, dangling link, followed link, mindepth > maxdepth, several / missing starting points)"
     }
